@@ -176,6 +176,81 @@ func treeSnapshot(work string) string {
 	return strings.Join(l, "\n")
 }
 
+// quietSnapshot: the tree after it stayed the same for 10 consecutive looks
+// (the paused holder may still be writing the log line of its last command).
+func quietSnapshot(work string) string {
+	snap := treeSnapshot(work)
+	for same, tries := 0, 0; same < 10 && tries < 400; tries++ {
+		time.Sleep(20 * time.Millisecond)
+		if now := treeSnapshot(work); now == snap {
+			same++
+		} else {
+			snap, same = now, 0
+		}
+	}
+	return snap
+}
+
+// openFilesOfGroup: regular files below work that some process of the
+// process group has open, relative to work.
+func openFilesOfGroup(pgid int, work string) map[string]bool {
+	open := map[string]bool{}
+	procs, _ := filepath.Glob("/proc/[0-9]*")
+	for _, pd := range procs {
+		data, err := os.ReadFile(pd + "/stat")
+		if err != nil {
+			continue
+		}
+		// pid (comm) state ppid pgrp ...
+		st := string(data)
+		if i := strings.LastIndex(st, ")"); i >= 0 {
+			f := strings.Fields(st[i+1:])
+			if len(f) < 3 || f[2] != fmt.Sprint(pgid) {
+				continue
+			}
+		}
+		fds, _ := filepath.Glob(pd + "/fd/*")
+		for _, fd := range fds {
+			if t, err := os.Readlink(fd); err == nil {
+				if rel, err := filepath.Rel(work, t); err == nil && !strings.HasPrefix(rel, "..") {
+					open[rel] = true
+				}
+			}
+		}
+	}
+	return open
+}
+
+// changedOnlyIn: every line that differs between the two snapshots names a
+// file of the set, and the file exists in both snapshots.
+func changedOnlyIn(before, after string, files map[string]bool) bool {
+	idx := func(s string) map[string]string {
+		m := map[string]string{}
+		for _, l := range strings.Split(s, "\n") {
+			if name, rest, ok := strings.Cut(l, ":"); ok {
+				m[name] = rest
+			}
+		}
+		return m
+	}
+	b, a := idx(before), idx(after)
+	for name, v := range a {
+		old, had := b[name]
+		if had && old == v {
+			continue
+		}
+		if !had || !files[name] {
+			return false
+		}
+	}
+	for name := range b {
+		if _, still := a[name]; !still {
+			return false
+		}
+	}
+	return true
+}
+
 func fnvHash(b []byte) uint64 {
 	var h uint64 = 14695981039346656037
 	for _, c := range b {
@@ -247,6 +322,9 @@ func c12Process(ctx *core.Ctx, res *core.Result) {
 		evals   int
 		skipped int
 		viols   []core.Violation
+		// differences confined to the holder's open log files that a second
+		// contender run did not reproduce
+		lateWrites int
 	}
 	results := make(chan jr, len(jobs))
 	for ji, j := range jobs {
@@ -299,7 +377,7 @@ func c12Process(ctx *core.Ctx, res *core.Result) {
 				}
 				ev = append(ev, "delete-old-policies ran (lock file 400 days old, keep_history default 365)")
 			}
-			snap := treeSnapshot(work)
+			snap := quietSnapshot(work)
 			for ci, c := range conts {
 				cp := startProd(work, sc, c.front, nil, 0, fmt.Sprintf("ctrl-cont%d", ci), c.spelling)
 				exit, to := cp.wait(60 * time.Second)
@@ -316,6 +394,25 @@ func c12Process(ctx *core.Ctx, res *core.Result) {
 					add("second-session:"+c.front, "the contender opened a session to the device while the holder was active", e2)
 				}
 				if now := treeSnapshot(work); now != snap {
+					// The paused holder is alive: its own log line for the command it
+					// has just sent may reach the disk after the pause was noticed.
+					// Such a write can only hit a file the holder has open.  A
+					// difference confined to those files is attributed to the
+					// contender only if a second run of the same contender changes
+					// the tree again (a log line of the contender comes every time,
+					// the holder is blocked and writes nothing further).
+					if changedOnlyIn(snap, now, openFilesOfGroup(holder.cmd.Process.Pid, work)) {
+						snap2 := quietSnapshot(work)
+						cp2 := startProd(work, sc, c.front, nil, 0, fmt.Sprintf("ctrl-cont%d-again", ci), c.spelling)
+						cp2.wait(60 * time.Second)
+						if now2 := treeSnapshot(work); now2 == snap2 {
+							out.lateWrites++
+							snap = now2
+							continue
+						} else {
+							now, snap = now2, snap2
+						}
+					}
 					add("contender-left-trace:"+c.front, "status/history/log tree changed by the refused contender:\n"+now+"\n--- before\n"+snap, e2)
 					snap = now
 				}
@@ -352,6 +449,7 @@ func c12Process(ctx *core.Ctx, res *core.Result) {
 		res.Nontrivial += int64(r.evals)
 		res.Count("process_level_contender_runs", int64(r.evals))
 		res.Count("process_level_phases_without_holder(run ended by itself)", int64(r.skipped))
+		res.Count("process_level_late_log_writes_of_the_paused_holder", int64(r.lateWrites))
 		for _, v := range r.viols {
 			res.AddViolation(v)
 		}
